@@ -299,18 +299,134 @@ def check_pairs(acc):
         core.unload_source(ns)
 
 
+# ---------------------------------------------------------------------------------------------
+# several bases: every base contributes its postconditions (and snapshots) to an overriding function, whatever its position
+# among the bases and whether or not it has preconditions
+
+BASES_SRC = '''\
+import icontract
+LOG = []
+T = {}
+def RUN(c):
+    try:
+        while True: c.send(None)
+    except StopIteration as s:
+        return s.value
+def mk(role, name):
+    if role == "post":
+        def cond(result):
+            LOG.append((role, name))
+            return T.get(name, True)
+    elif role == "postold":
+        def cond(result, OLD):
+            LOG.append(("post", name))
+            return T.get(name, True) and OLD.s == "captured"
+    elif role == "cap":
+        def cond(self):
+            LOG.append((role, name))
+            return "captured"
+    else:
+        def cond(self):
+            LOG.append((role, name))
+            return T.get(name, True)
+    cond.__name__ = name
+    return cond
+ERRS = {n: type("E_" + n, (Exception,), {}) for n in ("qa", "qm", "qs", "qd", "qp", "pa")}
+class A(icontract.DBC):
+    # preconditions and a postcondition
+    @icontract.require(mk("pre", "pa"), error=ERRS["pa"])
+    @icontract.ensure(mk("post", "qa"), error=ERRS["qa"])
+    {adef} f(self):
+        return 1
+class M(icontract.DBC):
+    # a postcondition only (no precondition: accepts every input)
+    @icontract.ensure(mk("post", "qm"), error=ERRS["qm"])
+    {adef} f(self):
+        return 1
+class S(icontract.DBC):
+    # a snapshot with the postcondition reading it, no precondition
+    @icontract.snapshot(mk("cap", "s"), name="s")
+    @icontract.ensure(mk("postold", "qs"), error=ERRS["qs"])
+    {adef} f(self):
+        return 1
+class P(icontract.DBC):
+    # contract-less
+    {adef} f(self):
+        return 1
+{classes}
+'''
+BASE_ORDERS = [("A", "M"), ("M", "A"), ("M", "S"), ("S", "M"), ("A", "S"), ("S", "A"), ("P", "M"), ("M", "P"), ("P", "A", "S"), ("M", "P", "S"),
+               ("A", "M", "S"), ("S", "M", "A"), ("M", "A", "S")]
+BASE_POSTS = {"A": ["qa"], "M": ["qm"], "S": ["qs"], "P": []}
+
+
+def check_bases(acc):
+    import itertools
+    classes = []
+    for i, order in enumerate(BASE_ORDERS):
+        for own in (False, True):
+            classes.append("class D{}{}({}):\n{}    {{adef}} f(self):\n        LOG.append(('body', 'D'))\n        return 1\n".format(
+                i, "o" if own else "", ", ".join(order), "    @icontract.ensure(mk('post', 'qd'), error=ERRS['qd'])\n" if own else ""))
+    for is_async in (False, True):
+        src = BASES_SRC.replace("{classes}", "".join(classes)).replace("{adef}", "async def" if is_async else "def")
+        ns = core.load_source(src, "c02b")
+        try:
+            for i, order in enumerate(BASE_ORDERS):
+                for own in (False, True):
+                    cls = "D{}{}".format(i, "o" if own else "")
+                    posts = [q for b in order for q in BASE_POSTS[b]] + (["qd"] if own else [])
+
+                    def run(truth):
+                        def go():
+                            ns["T"].clear()
+                            obj = ns[cls]()
+                            ns["T"].update(truth)
+                            del ns["LOG"][:]
+                            try:
+                                r = obj.f()
+                                if is_async:
+                                    r = ns["RUN"](r)
+                                return "ret"
+                            except BaseException as e:  # noqa
+                                return type(e).__name__
+                        return core.fresh_ctx_run(go), list(ns["LOG"])
+                    f0 = {"family": "several_bases", "bases": ",".join(order), "own_post": own, "is_async": is_async}
+                    out, log = run({})
+                    evaluated = [n for r, n in log if r == "post"]
+                    acc.case(("bases", cls, is_async, ()), True, len(log), out)
+                    if out != "ret" or sorted(evaluated) != sorted(posts) or (("S" in order) != (("cap", "s") in log)):
+                        acc.violation(core.Violation(PROP, "inherited_postcondition_not_evaluated", f0,
+                                                     "class {}({}).f() with all conditions true: outcome {}, postconditions evaluated {} expected each of {} "
+                                                     "(snapshot captured: {}); log {}".format(cls, ", ".join(order), out, evaluated, posts, ("cap", "s") in log, log),
+                                                     spec={"pairs": "bases"}, script=src))
+                        continue
+                    for q in posts:
+                        out2, log2 = run({q: False})
+                        acc.case(("bases", cls, is_async, (q,)), True, len(log2), out2)
+                        if out2 != "E_" + q or ("body", "D") not in log2:
+                            acc.violation(core.Violation(PROP, "violating_result_returned" if out2 == "ret" else "wrong_outcome", dict(f0, falsy=q),
+                                                         "class {}({}).f() with postcondition {} falsy: expected E_{} after the body, got {}; log {}".format(
+                                                             cls, ", ".join(order), q, q, out2, log2), spec={"pairs": "bases"}, script=src))
+                            break
+            acc.sample({"family": "several_bases", "orders": [list(o) for o in BASE_ORDERS], "async": is_async}, cap=1)
+        finally:
+            core.unload_source(ns)
+
+
 def work(chunk):
     acc = core.Acc()
     for spec in chunk:
         if spec == "pairs":
             check_pairs(acc)
+        elif spec == "bases":
+            check_bases(acc)
         else:
             famcheck.check_spec(PROP, spec, acc, ROLES, params, symptom_of, nontrivial)
     return acc.result()
 
 
 def run(tier, t0):
-    sp = core.rotate(specs(tier)) + ["pairs"]
+    sp = core.rotate(specs(tier)) + ["pairs", "bases"]
     tot = core.merge(core.pmap(work, sp))
     return core.finish(
         PROP, tier, tot, t0,
@@ -324,6 +440,8 @@ def run(tier, t0):
              "outer postcondition calls the inner callable x truth of (inner, outer) postcondition: the inner return is gated too; "
              "postconditions of async functions returning a custom awaitable / an iterator-based awaitable / a coroutine; ensure on top of a foreign "
              "decorator that turns an async def into a sync callable and vice versa (holds/falsy each); "
+             "13 orders of 2-3 bases (with pre+post / post only / snapshot+post reading OLD / contract-less) x override with/without own postcondition x "
+             "sync/async x (all true | each postcondition falsy): every base's postconditions and snapshots are in effect; "
              "non-trivial = at least one postcondition in effect",
         assumptions=["StopIteration raised by bodies is outside the alphabet (CPython rewrites it for coroutines)"],
         bounds={"programs": len(sp), "max_own_posts": max((0, 1, 2) if tier == "quick" else (0, 1, 2, 3)), "max_levels": 3},
@@ -334,7 +452,10 @@ def replay(path):
     import json
     if "pairs" in json.load(open(path))["spec"]:
         acc = core.Acc()
-        check_pairs(acc)
+        if json.load(open(path))["spec"]["pairs"] == "bases":
+            check_bases(acc)
+        else:
+            check_pairs(acc)
         for v in acc.violations:
             print("VIOLATION property={} replay={}".format(PROP, path))
             print(" ", v.symptom, v.detail[:600])
